@@ -83,10 +83,17 @@ Failing(obs)    == SeqRange(obs.failing)
 
 \* a skip is justified only by: last success was on exactly the current inputs
 Justified(t) == lastOk[t] = Inputs(t)
-WrongSkips(obs) == {r \in Rep(obs) : r.skipped /\ ~Justified(r.t)}
 \* C02's antecedent for task t in the current state
 MustSkip(t) == /\ Inputs(t) # {} /\ ~MissingLit(t)
                /\ Justified(t) /\ ~lastFailed[t]
+\* the same, judged on the files a task of the observed invocation saw when its turn came.  The commands of the explored programs do
+\* not touch dependency files, with one exception: a generator task that runs before its consumer and always writes the same thing,
+\* so that what the consumer sees is what the invocation leaves behind (fs'); for every other program fs' = fs
+InputsSeen(t)     == {<<f, fs'[f]>> : f \in {g \in LitDeps(t) \cup GlobCand(t) : fs'[g] # Absent}}
+MissingLitSeen(t) == \E f \in LitDeps(t) : fs'[f] = Absent
+JustifiedSeen(t)  == lastOk[t] = InputsSeen(t)
+MustSkipSeen(t)   == InputsSeen(t) # {} /\ ~MissingLitSeen(t) /\ JustifiedSeen(t) /\ ~lastFailed[t]
+WrongSkips(obs) == {r \in Rep(obs) : r.skipped /\ ~JustifiedSeen(r.t)}
 
 Violations(obs) ==
   LET quiet == ~crashed /\ ~obs.killed                       \* crash-free history so far
@@ -98,7 +105,7 @@ Violations(obs) ==
   \* "skipped" means none of its commands executed (C01: a skip is a skip; C02: executes none of its commands)
   \cup (IF \E r \in Rep(obs) : r.skipped /\ Executed(obs, r.t) THEN {"SkipRan"} ELSE {})
   \* C02: unchanged since last success => none of its commands run and it is reported skipped
-  \cup (IF quiet /\ ~obs.force /\ \E t \in Tasks : MustSkip(t) /\
+  \cup (IF quiet /\ ~obs.force /\ \E t \in Tasks : MustSkipSeen(t) /\
              (Executed(obs, t) \/ \E r \in Rep(obs) : r.t = t /\ ~r.skipped) THEN {"C02"} ELSE {})
   \* C02: tasks without any file dependency always run
   \cup (IF \E r \in Rep(obs) : r.skipped /\ ~HasFileDeps(r.t) THEN {"C02n"} ELSE {})
@@ -116,11 +123,15 @@ Violations(obs) ==
   \cup (IF (crashed \/ obs.killed) /\
            (\/ WrongSkips(obs) # {}
             \/ obs.outcome = "panic"
-            \/ (obs.outcome = "error" /\ obs.errcls \notin {"cache", "runner"} /\ ~\E t \in clo : MissingLit(t)))
+            \/ (obs.outcome = "error" /\ obs.errcls \notin {"cache", "runner"} /\ ~\E t \in clo : MissingLitSeen(t) \/ MissingLit(t)))
         THEN {"C10"} ELSE {})
 
+\* the inputs of t in the file state g
+InputsIn(g, t) == {<<f, g[f]>> : f \in {h \in LitDeps(t) \cup GlobCand(t) : g[h] # Absent}}
+\* (fs' has to be determined before Observe is evaluated: the inputs of a task's last success are those it completed on, i.e. the
+\*  files as the invocation leaves them -- the same as fs unless a task of the run itself wrote a dependency file)
 Observe(obs) ==
-  /\ lastOk'     = [t \in Tasks |-> IF Succeeded(obs, t) THEN Inputs(t) ELSE lastOk[t]]
+  /\ lastOk'     = [t \in Tasks |-> IF Succeeded(obs, t) THEN InputsIn(fs', t) ELSE lastOk[t]]
   /\ lastFailed' = [t \in Tasks |-> IF Executed(obs, t) THEN ~Succeeded(obs, t) ELSE lastFailed[t]]
   /\ forcedT'    = [t \in Tasks |-> forcedT[t] \/ (obs.force /\ Executed(obs, t))]
   /\ crashed'    = (crashed \/ obs.killed)
